@@ -110,7 +110,7 @@ def _events(args):
         fn = rng.choice(["binary", "B"])
         if rng.random() < 0.5:
             v = rng.choice(["f", "g", "h"])
-            code = rng.randint(1, len(w.names[v]))
+            code = rng.choice(sorted(set(w.cols[v]["v"]) - {0}))   # a level that occurs (a factor may have more names than rows)
             lvl = w.names[v][code - 1]
             explicit = rng.random() < 0.7
             if not explicit:
